@@ -581,6 +581,31 @@ def chunks_skipped(an, rep):
             R.check(len(pushes) >= 1, b.key, "one region per step", "a header step (%s) records no region: inputs would be "
                     "shorter than the number of steps" % variant)
     R.floor("paths through the chunk arm", arms, 2)
+    # every step that was read gets its region: the steps are walked as they are, not cut short by an adaptor that pairs
+    # them with something of the reader's own (zip), bounds or filters them
+    LIMITING = ("Iterator::zip", "Iterator::take", "Iterator::skip", "Iterator::filter", "Iterator::take_while",
+                "Iterator::skip_while", "Iterator::step_by", "Iterator::filter_map", "Iterator::map_while")
+    step_terms = set()
+    for p in paths:
+        for e in p.calls():
+            if e[2] == "Vec<T, A>::push" and len(e[5]) == 2 and "SerializedEvolutionStep as BinaryDeserializer>::deserialize" in show(e[5][1]):
+                step_terms.add(repr(guards.norm(strip_refs(e[5][0]))))
+            if e[3] == "Iterator::collect" and "SerializedEvolutionStep as BinaryDeserializer>::deserialize" in show(e[5][0]):
+                step_terms.add("collect")
+    n_ad = 0
+    for p in paths:
+        for e in p.calls():
+            if e[3] in LIMITING or e[2] in LIMITING:
+                recv = e[5][0] if e[5] else None
+                over_steps = recv is not None and (
+                    any(repr(guards.norm(x)) in step_terms for x in mir.walk_expr(recv)) or
+                    "SerializedEvolutionStep as BinaryDeserializer>::deserialize" in show(recv))
+                if over_steps:
+                    n_ad += 1
+                    R.fail(b.key, "steps limited by " + e[2], "the header steps are walked through %s: steps beyond what the "
+                           "adaptor lets through get no region and their chunks are never skipped" % e[2], mir.loc(b, 0))
+    if not n_ad:
+        R.ok(sample={"header steps": "walked without zip / take / skip / filter"})
     # every step is read: the first loop runs over 0..=stored_version (the range may be built in an inlined private helper)
     found = False
     for p in paths:
